@@ -790,6 +790,21 @@ class Saver:
         if self.closed:
             raise RuntimeError(f"Attmpt to save to {self.md} saver, which is already closed!")
 
+        if not self.is_forked and self.md["chunks"] and not chunk.is_superrun:
+            # The user-facing iterator checks continuity, but it may notice a
+            # bad (last) chunk only after this saver has finished: do not
+            # store data that cannot be loaded again.
+            previous = self.md["chunks"][-1]
+            if (
+                previous["chunk_i"] == chunk_i - 1
+                and previous["run_id"] == chunk.run_id
+                and previous["end"] != chunk.start
+            ):
+                raise ValueError(
+                    f"Data is not continuous. Chunk {chunk} to be saved should "
+                    f"have started at {previous['end']}"
+                )
+
         chunk_info = dict(
             chunk_i=chunk_i,
             n=len(chunk),
